@@ -107,6 +107,65 @@ def sc_enroll(B, kind, C, D, rU, rV, H, iters, history=None):
     return o
 
 
+def sc_mode_observable(B, kind, seed, iters):
+    """real code only: with many enrolment iterations the returned factors are the joint posterior
+    mode, obtained independently by solving the stationarity linear system with NumPy"""
+    import numpy as np
+
+    gmm = B.mod("gmm")
+    famod = B.mod("factor_analysis")
+    rs = np.random.RandomState(seed)
+    C, D, rU, rV, H = 2, 2, 2, 2, 3
+    CD = C * D
+    ubm = gmm.GMMMachine(C)
+    ubm.means = rs.normal(size=(C, D))
+    ubm.variances = rs.uniform(0.5, 2.0, (C, D))
+    ubm.weights = np.array([0.4, 0.6])
+    if kind == "isv":
+        m = famod.ISVMachine(r_U=rU, ubm=ubm, enroll_iterations=iters)
+    else:
+        m = famod.JFAMachine(r_U=rU, r_V=rV, ubm=ubm, enroll_iterations=iters)
+        m.V = rs.normal(scale=0.5, size=(CD, rV))
+    m.U = rs.normal(scale=0.5, size=(CD, rU))
+    m.D = rs.uniform(0.3, 0.9, CD)
+    X = []
+    for h in range(H):
+        s = gmm.GMMStats(C, D)
+        s.n = rs.uniform(0.5, 6.0, C)
+        s.sum_px = s.n[:, None] * (ubm.means + rs.normal(scale=0.7, size=(C, D)))
+        s.t = float(s.n.sum())
+        X.append(s)
+    res = m.enroll(X)
+    # unknowns: y (rV) | x_1..x_H (rU each) | z (CD); stationarity A u = b of the concave quadratic
+    S, mean = ubm.variances.flatten(), ubm.means.flatten()
+    nV = rV if kind == "jfa" else 0
+    n = nV + H * rU + CD
+    A, b = np.eye(n), np.zeros(n)
+    W = []  # per session design matrix (CD x n)
+    for h in range(H):
+        M_ = np.zeros((CD, n))
+        if nV:
+            M_[:, :nV] = m.V
+        M_[:, nV + h * rU : nV + (h + 1) * rU] = m.U
+        M_[:, nV + H * rU :] = np.diag(m.D)
+        W.append(M_)
+        Nh = np.repeat(X[h].n, D)
+        A += M_.T @ (M_ * (Nh / S)[:, None])
+        b += M_.T @ ((X[h].sum_px.flatten() - Nh * mean) / S)
+    u = np.linalg.solve(A, b)
+    o = Outcome()
+    if kind == "jfa":
+        o.equal("y-is-joint-mode", res[0], u[:nV])
+        o.equal("z-is-joint-mode", res[1], u[nV + H * rU :])
+    else:
+        o.equal("z-is-joint-mode", np.asarray(res)[0], u[nV + H * rU :])
+    return o
+
+
+def job_observable(P):
+    P.probe_real("mode-observable", sc_mode_observable, [dict(kind=k, seed=sd, iters=400) for k in ("isv", "jfa") for sd in (1, 2, 3)], tries=1)
+
+
 def job_blocks(P, kind, C, D, rU, rV):
     for H in (1, 2):
         P.run("blocks-H%d" % H, sc_blocks, dict(kind=kind, C=C, D=D, rU=rU, rV=rV, H=H), linalg=_la(rU, rV if kind == "jfa" else 0), validate=1)
@@ -122,7 +181,7 @@ def job_history(P, kind, C, D, rU, rV):
 
 
 def jobs(tier):
-    out = []
+    out = [("observable", "job_observable", {})]
     for (C, D, rU, rV) in SIZES[tier]:
         for kind in ("isv", "jfa"):
             tag = "%s@C%dD%drU%drV%d" % (kind, C, D, rU, rV)
